@@ -459,7 +459,16 @@ def gen_modspec(rng, name, big):
             cfg[p['attr']] = {'value': sorted([pyval(), pyval()]) if p['attr'].endswith('_limits') else pyval()}
     # feature mixins: 'FeatA' = direct Feature subclass (reported), 'FeatSub' = subclass of one (itself not a feature)
     feats = rng.choice([[], [], [], ['FeatA'], ['FeatB', 'FeatA'], ['FeatSub'], ['FeatSub', 'FeatB']])
-    return {'name': name, 'base': base, 'exported': rng.random() < 0.8, 'layers': layers, 'cfg': cfg, 'features': feats}
+    exported = rng.random() < 0.8
+    if not exported and rng.random() < 0.7:
+        # a module that is not exported whose configuration ALSO carries explicit export settings for some of its
+        # accessibles (export=True or a name): the module setting must win, nothing of it may become reachable
+        eligible = [p for _, p in all_params if 'readonly' in p and p['attr'] not in gone]
+        for p in rng.sample(eligible, min(len(eligible), rng.choice([1, 1, 2]))):
+            over = dict(cfg.get(p['attr'], {}))
+            over['export'] = custom_pool.pop() if custom_pool and rng.random() < 0.5 else True
+            cfg[p['attr']] = over
+    return {'name': name, 'base': base, 'exported': exported, 'layers': layers, 'cfg': cfg, 'features': feats}
 
 
 def gen_nodespec(rng, big):
